@@ -53,14 +53,17 @@ def gen_assert(rng, status):
 
 def gen_project(rng):
     ntests = rng.randint(1, 4)
-    lines = ["from inline_snapshot import snapshot", ""]
+    lines = ["import pytest", "from inline_snapshot import snapshot", ""]
     expect = {}
     for t in range(ntests):
         nass = rng.randint(1, 3)
         bad_test = rng.random() < 0.55
         badpos = rng.randrange(nass) if bad_test else -1
         loop = rng.random() < 0.25
-        lines.append(f"def test_t{t}():")
+        param = rng.random() < 0.3            # the same call sites executed by two test items
+        if param:
+            lines.append("@pytest.mark.parametrize('rep', [0, 1])")
+        lines.append(f"def test_t{t}({'rep' if param else ''}):")
         ind = "    "
         if loop:
             lines.append("    for _ in range(2):")
@@ -69,7 +72,8 @@ def gen_project(rng):
             st = rng.choice(["wrong", "wrong", "missing"]) if a == badpos else "ok"
             lines.append(ind + gen_assert(rng, st))
         lines.append("")
-        expect[f"test_t{t}"] = "bad" if bad_test else "good"
+        for name in ([f"test_t{t}[0]", f"test_t{t}[1]"] if param else [f"test_t{t}"]):
+            expect[name] = "bad" if bad_test else "good"
     return "\n".join(lines) + "\n", expect
 
 
